@@ -22,9 +22,11 @@ type c15reader struct {
 	desc   ociregistry.Descriptor
 	closed int
 	ctx    context.Context
+	// the member's reader may report an error from Close (e.g. a truncated body)
+	closeErr error
 }
 
-func (r *c15reader) Close() error                       { r.closed++; return nil }
+func (r *c15reader) Close() error                       { r.closed++; return r.closeErr }
 func (r *c15reader) Descriptor() ociregistry.Descriptor { return r.desc }
 
 type c15member struct {
